@@ -117,7 +117,8 @@ def evolving_universe(ctx, rng, fam, k, steps, fault_rate=0.0):
 
 
 def replay_universe(case):
-    """Rebuild the universe of a case produced by evolving_universe."""
+    """Rebuild the universe of a case produced by evolving_universe: a generator that yields (nodes, par, ch) after
+    every step, while the node objects are in that state (the same objects throughout)."""
     from . import gen
     from . import model as M
     fam = case["family"]
@@ -127,9 +128,8 @@ def replay_universe(case):
         return tuple(tup(y) for y in x) if isinstance(x, list) else x
 
     rec = F.Rec(F.materialise(ffam, tup(case["state"])))
-    states = []
     snap = rec.snapshot()
-    states.append((rec.nodes, [p for p, _ in snap], [list(c) for _, c in snap]))
+    yield rec.nodes, [p for p, _ in snap], [list(c) for _, c in snap]
     for ent in case["history"]:
         if len(ent) == 2 and isinstance(ent[1], list) and ent[1] and ent[1][0] in ("none", "once", "evict", "admit"):
             call, plan = ent
@@ -143,5 +143,4 @@ def replay_universe(case):
             out, mch, _ = M.model_call(M.ch_of(pre), tup(call), F.base_family(ffam))
             if out in ("ok", "noop"):
                 par, ch = gen.parents_of(mch), [list(c) for c in mch]
-        states.append((rec.nodes, par, ch))
-    return states
+        yield rec.nodes, par, ch
